@@ -219,8 +219,15 @@ func zzC13Set(doc yobj, key string, v any, del bool) (ok bool) {
 		} else {
 			l, _ = doc["filters"].([]any)
 		}
-		if len(l) == 0 || del {
+		if len(l) == 0 || (del && key == "fl0") {
 			return false
+		}
+		if del {
+			// No first client: the list loses it.
+			c, k := zzC13ClientList(doc)
+			c[k] = l[1:]
+
+			return true
 		}
 		l[0] = v
 
